@@ -30,7 +30,7 @@ and nothing about /verif. Each was confirmed in a fresh worktree by `seed_eval.s
 with the change; the agent's demonstration fails with it and passes without it), then applied to /repo, the
 property's quick tier run, and reverted. `seeded/<id>/` keeps patch.diff, the demonstration, the agent's NOTES.md
 and meta.json; `seed_recheck.sh` re-runs all of them. %d were caught by the checks as built; %d were missed at
-first and led to the strengthenings named in the last column (all %d are caught now, by the quick tier).
+first and led to the strengthenings named in the last column (all %d are caught now by the quick tier - two of them, C16-c and C05-n, by the check of the property whose clause they break first, as their rows say).
 
 | seed | change | needs | caught by (quick tier, kinds) | check |
 |---|---|---|---|---|
